@@ -33,7 +33,13 @@ func CrashRecords(evs []Event) []any {
 			}
 			out = append(out, map[string]any{"ev": name, "b": ev["b"], "epoch": ep})
 		case "PersistCommitted":
-			out = append(out, map[string]any{"ev": name, "epoch": ev["epoch"]})
+			m := map[string]any{"ev": name, "epoch": ev["epoch"], "segids": []any{}, "boltids": []any{}, "checked": false}
+			if a, ok := ev["segids"].([]any); ok {
+				if b, ok := ev["boltids"].([]any); ok {
+					m["segids"], m["boltids"], m["checked"] = a, b, true
+				}
+			}
+			out = append(out, m)
 		case "Return", "Callback":
 			out = append(out, map[string]any{"ev": name, "b": ev["b"]})
 		case "MemMergeEquiv":
